@@ -102,3 +102,64 @@ package ledger
 //@   property C13
 //@   ensures coinbase_carries_the_award_of_the_block_height: tx.Coinbase ==> (result == (len(tx.TxOutputs) >= 1 && natOf(tx.TxOutputs[0].Amount) == awardAt(l.GenesisBlock, block.Height)))
 //@   ensures others_pass: !tx.Coinbase ==> result
+
+// ======================= C04 / C05 / C06: confirming a block =======================
+// Everything a confirmation persists goes into the ledger's one confirm batch, the
+// new meta included, and that batch is written exactly once (C06); nothing is
+// written to the database directly. The in-memory meta is replaced only after that
+// write succeeded, and the block is cached only when the confirmation succeeded
+// (C05). The tip moves to the new block exactly when the block is strictly higher
+// than the trunk - an equally high branch block never replaces the tip - and the
+// trunk height is the tip's height (C04).
+//@ func Ledger.ConfirmBlock
+//@   property C06
+//@   requires two_caches: l.blockCache != l.blkHeaderCache
+//@   local kvErr error
+//@   local newMeta *xldgpb.LedgerMeta
+//@   local batchWrite kvdb.Batch
+//@   at Batch.Write assert meta_goes_with_the_blocks: recv == batchWrite && batchWrite == l.confirmBatch && sel(sel(batchOp, ifacePtr(recv)), xldgpb.MetaTablePrefix) == 1
+//@   ensures one_atomic_write: kvWrites <= old(kvWrites) + 1 && kvDirect == old(kvDirect)
+//@   at fieldwrite.meta assert [C05] memory_follows_the_disk: kvErr == nil && $1 == newMeta
+//@   at LRUCache.Add assert [C05] only_confirmed_blocks_are_cached: recv == l.blockCache ==> confirmStatus.Succ
+//@   at fieldwrite.meta assert [C04] tip_stays_or_moves_to_the_new_block: !isRoot ==> (newMeta.TipBlockid == block.Blockid || newMeta.TipBlockid == l.meta.TipBlockid) && newMeta.TrunkHeight >= l.meta.TrunkHeight
+//@   at Ledger.handleFork assert [C04] switch_only_to_a_strictly_higher_block: preBlock.Height + 1 > l.meta.TrunkHeight && newMeta.TrunkHeight == preBlock.Height + 1 && newMeta.TipBlockid == block.Blockid && (block != preBlock ==> block.Height == preBlock.Height + 1) && bytesEq($0, l.meta.TipBlockid) && bytesEq($1, preBlock.Blockid) && bytesEq($2, block.Blockid) && $3 == batchWrite
+//@   at Ledger.saveBlock#1 assert [C04] extension_moves_the_tip_by_one: $0 == preBlock && bytesEq(preBlock.Blockid, l.meta.TipBlockid) && newMeta.TrunkHeight == l.meta.TrunkHeight + 1 && newMeta.TipBlockid == block.Blockid && preBlock.NextHash == block.Blockid && (block != preBlock ==> block.Height == preBlock.Height + 1) && $1 == batchWrite
+//@   loop 1 invariant [C04] tip_rule_prepared: newMeta != nil && l.meta == old(l.meta) && (!isRoot ==> (newMeta.TipBlockid == block.Blockid || newMeta.TipBlockid == l.meta.TipBlockid) && newMeta.TrunkHeight >= l.meta.TrunkHeight)
+
+// Removing the blocks of a branch only prepares deletes in the caller's batch:
+// nothing is written to the database directly (C06).
+//@ func Ledger.removeBlocks
+//@   property C06
+//@   ensures no_direct_writes: kvDirect == old(kvDirect) && kvWrites == old(kvWrites)
+//@   at Batch.Delete assert into_the_callers_batch: recv == batch
+//@   loop 1 invariant nothing_written_yet: kvDirect == old(kvDirect) && kvWrites == old(kvWrites)
+
+// A truncation is one batch holding the removed blocks, the new tip's header and the
+// new meta, written once; the in-memory meta follows only a successful write, names
+// the target as tip and its height as trunk height (C04, C05, C06).
+//@ func Ledger.Truncate
+//@   property C06
+//@   local batchWrite kvdb.Batch
+//@   local newMeta *xldgpb.LedgerMeta
+//@   local block *xldgpb.InternalBlock
+//@   ensures one_atomic_write: kvWrites <= old(kvWrites) + 1 && kvDirect == old(kvDirect) && (result == nil ==> kvWrites == old(kvWrites) + 1)
+//@   at Batch.Write assert meta_goes_with_the_removals: recv == batchWrite && sel(sel(batchOp, ifacePtr(recv)), xldgpb.MetaTablePrefix) == 1
+//@   at Ledger.removeBlocks assert removals_in_the_same_batch: $2 == batchWrite && bytesEq($1, block.Blockid)
+//@   at fieldwrite.meta assert [C05] memory_follows_the_disk: err == nil && $1 == newMeta
+//@   ensures [C05] failure_keeps_the_meta: result != nil ==> l.meta == old(l.meta)
+//@   at fieldwrite.meta assert [C04] target_becomes_the_tip: newMeta.TipBlockid == utxovmLastID && newMeta.TrunkHeight == block.Height
+//@   loop 1 invariant nothing_written_yet: kvDirect == old(kvDirect) && kvWrites == old(kvWrites) && l.meta == old(l.meta)
+
+// Switching the trunk walks both branches down to the fork point: every block left
+// on the old trunk loses the flag and its next link, every block of the new trunk
+// gets the flag and the link to its successor, all saved in the caller's batch (C04, C06).
+//@ func Ledger.handleFork
+//@   property C04
+//@   local pBlock *xldgpb.InternalBlock
+//@   local qBlock *xldgpb.InternalBlock
+//@   ensures [C06] no_direct_writes: kvDirect == old(kvDirect) && kvWrites == old(kvWrites)
+//@   loop 1 invariant [C06] nothing_written_yet: kvDirect == old(kvDirect) && kvWrites == old(kvWrites)
+//@   at Ledger.correctTxsBlockid assert transactions_follow_the_new_trunk: $0 == qBlock.Blockid && $1 == batchWrite && qBlock.InTrunk
+//@   at Ledger.saveBlock#1 assert old_trunk_block_leaves: $0 == pBlock && (pBlock != qBlock ==> !pBlock.InTrunk && len(pBlock.NextHash) == 0) && $1 == batchWrite
+//@   at Ledger.saveBlock#2 assert new_trunk_block_joins: $0 == qBlock && qBlock.InTrunk && $1 == batchWrite
+//@   at Ledger.saveBlock#3 assert fork_point_links_to_the_new_branch: $0 == splitBlock && splitBlock.InTrunk && splitBlock.NextHash == nextHash && $1 == batchWrite
